@@ -9,6 +9,7 @@ import (
 // VerifAmount: C20a — FactoidToFactoshi converts a decimal string to base units exactly
 // or rejects it; it never returns a different number.
 func VerifAmount() {
+	vrt.Mode("fp", 1) // should the routine ever compute in float64, IEEE rounding is followed exactly
 	maxInt := vrt.Param("maxint", 20)
 	maxFrac := vrt.Param("maxfrac", 9)
 	il := vrt.Choose("intDigits", maxInt+1)
